@@ -433,9 +433,12 @@ class Node:
     def _assign_peer_connection(self, conn: PeerConnection):
         if not conn.host_identity:
             return
-        if conn.host_identity not in self.peers:
+        # the same lookup that is used when the connection is removed: a
+        # connection that was opened towards a configured peer belongs to that
+        # peer, whatever identity the answering host advertises
+        peer = self._find_connection_peer(conn)
+        if not peer:
             return
-        peer = self.peers[conn.host_identity]
         peer.disconnect_reason = None
         if not peer.connection:
             peer.connection = conn
